@@ -117,6 +117,7 @@ def judge(histories):
 
 class C08(Prop):
     id = "C08"
+    thorough_rounds = 10   # thorough tier: this many independently seeded rounds of the random generators (duplicates dropped)
     modules = ["H3.Props.C08"]
     engines = ["goaway"]
     design_ref = "DESIGN.md section 7, C08; section 8, D-08; section 9, R-08"
